@@ -440,13 +440,16 @@ class Sim:
         last = self.last_thread
         policy = self.cfg.get("policy", "thread")
         if policy == "thread":
-            gs.sort(key=lambda g: (0 if g.thread == last else 1, 0 if g.kind == "rep" else 1, g.seq))
+            gs.sort(key=lambda g: (g.kind == "probe", 0 if g.thread == last else 1, 0 if g.kind == "rep" else 1, g.seq))
         elif policy == "fifo":
             # oldest gate first (reporter replies before anything else): every runnable thread
             # advances in turn, the most overlapped base schedule
-            gs.sort(key=lambda g: (0 if g.kind == "rep" else 1, g.seq))
+            gs.sort(key=lambda g: (g.kind == "probe", 0 if g.kind == "rep" else 1, g.seq))
+        elif policy == "slowrep":
+            # a stalled terminal: reporter replies only when nothing else can happen
+            gs.sort(key=lambda g: (g.kind == "probe", 1 if g.kind == "rep" else 0, g.seq))
         elif policy == "lifo":
-            gs.sort(key=lambda g: (0 if g.kind == "rep" else 1, -g.seq))
+            gs.sort(key=lambda g: (g.kind == "probe", 0 if g.kind == "rep" else 1, -g.seq))
         else:
             raise HarnessError(f"unknown policy {policy}")
         evs = list(gs)
